@@ -24,9 +24,15 @@ def run(ctx):
              "undisturbed window hit W distinct workers; non-trivial = the run contains such a window with W >= 2")
     from checks import c04avail
     c04avail.run(ctx)
+    import srvload
+    srvload.run(ctx)
 
 
 def replay(ctx, path):
+    import json as _j
+    if _j.load(open(path))["replay"].get("mode") == "e2e-load":
+        import srvload
+        return srvload.replay(ctx, path)
     import json
     import vlib
     rp = json.load(open(path))["replay"]
